@@ -63,12 +63,16 @@ INFIX_OPERATORS = frozenset(
 class Parser:
     """pest grammar parser."""
 
-    def __init__(self, tokens: list[Token], builtins: Mapping[str, Rule]):
+    def __init__(
+        self, tokens: list[Token], builtins: Mapping[str, Rule], grammar: str = ""
+    ):
         self.tokens = tokens
         self.builtins = builtins
         self.pos = 0
-        assert tokens
-        self.eof = Token(TokenKind.EOI, "", -1, tokens[-1].grammar)
+        if tokens:
+            grammar = tokens[-1].grammar
+        # An empty grammar (or only comments) is valid: it defines no rules.
+        self.eof = Token(TokenKind.EOI, "", len(grammar), grammar)
 
     def current(self) -> Token:
         try:
